@@ -44,7 +44,7 @@ theorem eval_boolOp (O : Oracles) (env : Env) (isAnd : Bool) (l r : Expr) :
   | ok lv =>
     simp only [Outcome.bind]
     cases hc : condHolds lv with
-    | ok lb => cases lb <;> cases isAnd <;> simp [Outcome.bind]
+    | ok lb => cases lb <;> cases isAnd <;> simp
     | error k => rfl
     | panic s => rfl
     | oracleMissing w => rfl
